@@ -17,7 +17,12 @@ pub(crate) fn fill_buffer<R: std::io::Read>(
     let mut offset = 0;
     let chunk_size = chunk_size.unwrap_or(buffer.len());
     loop {
-        let read = source.read(&mut buffer[offset..chunk_size])?;
+        let read = match source.read(&mut buffer[offset..chunk_size]) {
+            Ok(read) => read,
+            // what has been read so far would be lost with the error: retry, as `read_exact` does
+            Err(err) if err.kind() == std::io::ErrorKind::Interrupted => continue,
+            Err(err) => return Err(err),
+        };
         offset += read;
 
         if read == 0 || offset == chunk_size {
